@@ -211,6 +211,9 @@ func (s *JavaFullListener) EnterInterfaceMethodDeclaration(ctx *parser.Interface
 	position := BuildPosition(ctx.BaseParserRuleContext, name)
 
 	method := &core_domain.CodeFunction{Name: name, ReturnType: typeType, Position: position}
+	if buildMethodParameters(bodyDecl.FormalParameters(), method) {
+		return
+	}
 	updateMethod(method)
 }
 
